@@ -375,3 +375,7 @@ impl<'xml> DeserializeContent<'xml> for dto::Event {
         String::deserialize_content(d).map(Self::from)
     }
 }
+
+// verification hook (compiled only under `cargo kani`, see /verif/MANIFEST.json hooks)
+#[cfg(kani)]
+include!(concat!(env!("VERIF_KANI_INC"), "/s3s_xml_de.rs"));
